@@ -489,6 +489,10 @@ func genC05Record(r *Rand, id int, hosts []string) map[string]string {
 		rec["m"] = PickOf(r, "abc", "NaNx", "--", "1e")
 	case 3:
 		rec["m"] = strconv.Itoa(-1 - r.Intn(50))
+	case 4:
+		// more significant digits than a 32-bit float holds (epoch seconds, byte
+		// counts): exact in the float64 arithmetic of the documented semantics
+		rec["m"] = PickOf(r, "1633158729", "16777217", "123456.789", "2147483649", "-40000001", strconv.Itoa(1600000000+r.Intn(90000000)))
 	default:
 		rec["m"] = strconv.Itoa(1 + r.Intn(1000))
 	}
